@@ -35,6 +35,11 @@ extern "C"
         /// emits has been committed to `out`: signals the sink to stop.
         /// May be NULL.
         void (*sig_stop_sink)(const struct video_filter_s*);
+
+        /// Called by the filter thread when it gives up on an error: nobody
+        /// reads its input queue any more, so the source must stop.
+        /// May be NULL.
+        void (*sig_stop_source)(const struct video_filter_s*);
     };
 
     enum DeviceStatusCode video_filter_init(struct video_filter_s* self,
